@@ -245,6 +245,8 @@ void parsec_setup_nested_future(parsec_datacopy_future_t** future, ...)
  * @param[inout] output_usage counter for the predecessor repo usage.
  *
  * @param[in] promise_type fulfilled or unfulfilled reshape promise.
+ * @param[in] remote_predecessor the predecessor ran on another process: this is one of
+ * the releases (one per received output) of the local stand-in for it.
  */
 static void
 parsec_create_reshape_promise(parsec_execution_stream_t *es,
@@ -260,7 +262,8 @@ parsec_create_reshape_promise(parsec_execution_stream_t *es,
                               data_repo_t **setup_repo,
                               parsec_key_t *setup_repo_key,
                               uint32_t *output_usage,
-                              int promise_type)
+                              int promise_type,
+                              int remote_predecessor)
 {
     parsec_reshape_promise_description_t *future_in_data;
     uint8_t setup_flow_index;
@@ -292,13 +295,30 @@ parsec_create_reshape_promise(parsec_execution_stream_t *es,
             setup_flow_index = successor_dep_flow_index;
             setup_repo_entry = data_repo_lookup_entry_and_create(es, successor_repo,
                                                                successor_repo_key);
+        } else if( remote_predecessor ) {
+            /* The dependencies of a task that ran on another process are released once per
+             * received output (remote_dep_release_incoming), every time through the same
+             * predecessor repo entry. A future found in the slot may have been stored by an
+             * earlier release, for another received copy: its consumers drop their references
+             * as they consume it (the last one destroys it) while the entry lives on until they
+             * complete, so it cannot be looked at. Only the promise handed along by this very
+             * release is known to be alive and to track this data; anything else in the slot
+             * sends this promise to the successor repo. */
+            if( (void*)predecessor_repo_entry->data[predecessor_dep_flow_index] != (void*)data->data_future ) {
+                *setup_repo = successor_repo;
+                *setup_repo_key = successor_repo_key;
+                setup_flow_index = successor_dep_flow_index;
+                setup_repo_entry = data_repo_lookup_entry_and_create(es, successor_repo,
+                                                                     successor_repo_key);
+            }
         } else {
             data->data_future = (parsec_datacopy_future_t*)predecessor_repo_entry->data[predecessor_dep_flow_index];
             /* New fulfilled promises are set up on the successor repo in case
              * they track a data different to the one tracked by the predecessor repo. */
-            /* A future that is not ready is the pending reshape of another type:
-             * it does not track this data, and it must not be triggered from here. */
-            if( !parsec_future_is_ready(data->data_future) ||
+            /* A future that is not completed is the pending reshape of another type:
+             * it does not track this data, and it must not be triggered from here.
+             * (is_ready() of a datacopy future is a stub that returns 0) */
+            if( !(data->data_future->super.status & PARSEC_DATA_FUTURE_STATUS_COMPLETED) ||
                 (data->data != parsec_future_get_or_trigger(data->data_future, NULL, NULL, NULL, NULL)) ) {
                 /* This case happens when a predecessor sends multiple copies with
                  * different shapes (type_remote) on the same output flow to a set
@@ -503,7 +523,8 @@ parsec_set_up_reshape_promise(parsec_execution_stream_t *es,
                                   &setup_repo,
                                   &setup_repo_key,
                                   &arg->output_usage,
-                                  promise_type);
+                                  promise_type,
+                                  (arg->action_mask & PARSEC_ACTION_RESHAPE_REMOTE_ON_RELEASE) ? 1 : 0);
 
     if(arg->action_mask & PARSEC_ACTION_RESHAPE_REMOTE_ON_RELEASE){
         /* Mark this future as originated after a reception
@@ -605,7 +626,8 @@ parsec_get_copy_reshape_inline(parsec_execution_stream_t *es,
                                       &setup_repo,
                                       &setup_repo_key,
                                       NULL,
-                                      PARSEC_UNFULFILLED_RESHAPE_PROMISE);
+                                      PARSEC_UNFULFILLED_RESHAPE_PROMISE,
+                                      0);
 
 
 #if defined(PARSEC_DEBUG_NOISIER) || defined(PARSEC_DEBUG_PARANOID)
